@@ -340,6 +340,7 @@ func (c *Conn) processEncryptedClientHello(h *clientHello, isRetry bool) (*clien
 		}
 		// Appendix B. Linear-time Outer Extension Processing
 		p := 0
+		referenced := make(map[uint16]bool)
 		for !want.Empty() {
 			var extType uint16
 			if !want.ReadUint16(&extType) {
@@ -348,6 +349,12 @@ func (c *Conn) processEncryptedClientHello(h *clientHello, isRetry bool) (*clien
 			if extType == 0xfe0d || extType == 0xfd00 {
 				return nil, fmt.Errorf("%w: ech_outer_extensions contains 0x%x", ErrIllegalParameter, extType)
 			}
+			// An extension type that is referenced twice is refused even when
+			// the outer hello happens to carry that extension twice.
+			if referenced[extType] {
+				return nil, fmt.Errorf("%w: ech_outer_extensions references 0x%x more than once", ErrIllegalParameter, extType)
+			}
+			referenced[extType] = true
 			for p < len(h.Extensions) && h.Extensions[p].Type != extType {
 				p++
 			}
